@@ -113,7 +113,7 @@ struct qs_agent {
 			if(_dom->_num_agents == 1) {
 				FRG_ASSERT(!_dom->_agents_to_ack.load(std::memory_order_relaxed));
 				_dom->_agents_to_ack.store(1, std::memory_order_relaxed);
-				_dom->_qs_counter.store(ctr + 1, std::memory_order_release);
+				_dom->_qs_counter.store(ctr + 1, std::memory_order_seq_cst);
 			}
 		}
 
@@ -139,7 +139,7 @@ struct qs_agent {
 				// Now ack the QS.
 				if(_dom->_agents_to_ack.fetch_sub(1, std::memory_order_acq_rel) == 1) {
 					_dom->_agents_to_ack.store(_dom->_num_agents, std::memory_order_relaxed);
-					_dom->_qs_counter.store(ctr + 1, std::memory_order_release);
+					_dom->_qs_counter.store(ctr + 1, std::memory_order_seq_cst);
 				}
 			}
 		}
@@ -158,7 +158,7 @@ struct qs_agent {
 				lock_guard<M> lock(_dom->_mutex);
 //				std::cout << "Deferred QS " << (_acked_qs_counter + 1) << ". Resetting ack counter to " << _dom->_num_agents << std::endl;
 				_dom->_agents_to_ack.store(_dom->_num_agents, std::memory_order_relaxed);
-				_dom->_qs_counter.store(_acked_qs_counter + 1, std::memory_order_release);
+				_dom->_qs_counter.store(_acked_qs_counter + 1, std::memory_order_seq_cst);
 
 				_qs_deferred = false;
 			}
@@ -175,7 +175,7 @@ struct qs_agent {
 						lock_guard<M> lock(_dom->_mutex);
 //						std::cout << "QS " << (ctr + 1) << ". Resetting ack counter to " << _dom->_num_agents << std::endl;
 						_dom->_agents_to_ack.store(_dom->_num_agents, std::memory_order_relaxed);
-						_dom->_qs_counter.store(ctr + 1, std::memory_order_release);
+						_dom->_qs_counter.store(ctr + 1, std::memory_order_seq_cst);
 					}else{
 						_qs_deferred = true;
 					}
@@ -188,7 +188,7 @@ struct qs_agent {
 
 	void quiescent_barrier() {
 		// Advance the desired QS counter.
-		auto target = _dom->_qs_counter.load(std::memory_order_relaxed) + 2;
+		auto target = _dom->_qs_counter.load(std::memory_order_seq_cst) + 2;
 		auto c = _dom->_desired_qs_counter.load(std::memory_order_relaxed);
 		while(c < target) {
 			if(_dom->_desired_qs_counter.compare_exchange_weak(c, target,
@@ -203,7 +203,7 @@ struct qs_agent {
 
 	void await_barrier(qs_node *node) {
 		// Advance the desired QS counter.
-		auto target = _dom->_qs_counter.load(std::memory_order_relaxed) + 2;
+		auto target = _dom->_qs_counter.load(std::memory_order_seq_cst) + 2;
 		auto c = _dom->_desired_qs_counter.load(std::memory_order_relaxed);
 		while(c < target) {
 			if(_dom->_desired_qs_counter.compare_exchange_weak(c, target,
